@@ -108,7 +108,10 @@ structure St where
   pgs    : List PGNode := []
   execs  : List (Nat × Nat) := []
   clock  : Nat := 0
+  /-- events of the current operation -/
   log    : List Event := []
+  /-- all events since the container was created (not visible in Go; lets theorems speak about whole histories) -/
+  hist   : List Event := []
   deriving Repr, Inhabited
 
 def St.scope (st : St) (s : Nat) : ScopeSt := st.scopes.getD s { parent := none }
@@ -157,7 +160,7 @@ def St.bumpExec (st : St) (f : Nat) : St :=
     { st with execs := st.execs.map fun (g, c) => if g == f then (g, c + 1) else (g, c) }
   else { st with execs := st.execs ++ [(f, 1)] }
 
-def St.emit (st : St) (e : Event) : St := { st with log := st.log ++ [e] }
+def St.emit (st : St) (e : Event) : St := { st with log := st.log ++ [e], hist := st.hist ++ [e] }
 
 /-! ### graph holder -/
 
